@@ -161,6 +161,21 @@ CHECKS = {
         technique="TLA+ spec + TLC exhaustive enumeration, replay through real encryptor, TLC trace validation, independent cipher schedule",
         design_ref="DESIGN.md section 5 C06/C07",
     ),
+    "C15": dict(
+        level="model_checking",
+        text=("AvcSyntax.tla transcribes ISO/IEC 14496-10 7.3.2.1.1 (SPS incl. high-profile fields, scaling lists, poc types, "
+              "frame/field, cropping, VUI, HRD), 7.3.2.2 (PPS incl. the 8x8/scaling/second-chroma tail) and 7.3.3 (slice header incl. "
+              "ref-pic-list modification, pred-weight table, dec-ref-pic marking) as serialisers with the derived picture size, "
+              "ChromaArrayType and escaped header length; TLC enumerates base vectors with every field varied over its boundary set "
+              "(pairwise in the thorough tier), id assignments with pps id != sps id and all slice types, checks the oracle's NAL units "
+              "are emulation free, and exports them; the real parsers, configuration-record and codec-string builders and the sample-entry "
+              "builder are compared field by field."),
+        note=("Trusted: TLC, the transcription of the standard (checked for emulation-freeness and positive sizes only; corpus "
+              "re-serialisation traces are not built yet), Go replayer. HEVC syntax is not covered in this revision: the C15 verdict "
+              "is on AVC only. Slice groups and explicit prediction weights are not generated."),
+        technique="TLA+ syntax spec as independent serialiser + TLC enumeration of value vectors, behaviour replay into real parsers",
+        design_ref="DESIGN.md section 5 C15",
+    ),
 }
 
 PENDING_REASON = "check not built yet in this revision (planned in DESIGN.md section 5); not claimed until its machinery exists"
